@@ -282,6 +282,17 @@ pub enum Call {
     /// somebody builds ANOTHER interpolator over the same storage (another handle of the shared
     /// array / another view of the viewed array), queries it once at (x, y) and drops it
     Sibling { strat: SibStrat, x: Fb, y: Fb },
+    /// thread affinity (engine A): the executing client thread builds a PRIVATE interpolator of
+    /// this operation's slot configuration and keeps it
+    PrivBuild,
+    /// `inner` on the client's most recent private interpolator of this operation's slot
+    /// configuration (skipped if it has none); must answer like a fresh instance
+    PrivQuery { inner: Box<Call> },
+    /// the client's most recent private interpolator goes into the run's mailbox ...
+    PrivSend,
+    /// ... and whoever executes this takes the oldest one out and drops it - on a thread that did
+    /// not build it, while interpolators that thread built itself are alive
+    PrivReap,
 }
 
 #[derive(Serialize, Deserialize, Clone, Debug, PartialEq)]
@@ -305,6 +316,10 @@ impl Call {
             Call::InRange { .. } => "is_in_range",
             Call::Cow => "cow",
             Call::Sibling { .. } => "sibling_build",
+            Call::PrivBuild => "private_build",
+            Call::PrivQuery { .. } => "private_query",
+            Call::PrivSend => "private_send",
+            Call::PrivReap => "private_reap",
         }
     }
     /// number of query elements (= strategy callbacks if nothing fails)
@@ -312,6 +327,7 @@ impl Call {
         match self {
             Call::Scalar { .. } | Call::Interp { .. } | Call::InterpInto { .. } => 1,
             Call::Array { q } | Call::ArrayInto { q, .. } => q.xs.len(),
+            Call::PrivQuery { inner } => inner.batch_len(),
             _ => 0,
         }
     }
